@@ -103,8 +103,11 @@ def run(vc):
     vc.native_standins.append(dict(
         name="distributed slack on fixed networks",
         bound="2 fixed ring networks (ext_grid, two gens at one bus, scaled gen, gen with weight 0, xward) with distributed_slack=True: deviation / "
-              "weight equal for all participants, non-participants keep their setpoints, total balance",
-        script="from replaylib.distslack import main\nmain()\n"))
+              "weight equal for all participants, non-participants keep their setpoints, total balance; a ring of reference buses only; 5 xward "
+              "scenarios (two participating xwards and one out of service, table order descending in the bus, sgen / scaled load at the xward "
+              "bus, enforce_q_lims with a gen at its limit): ratios and nodal balance at every bus",
+        script="import sys\nfrom replaylib.distslack import main, main_only_reference_buses, main_xwards\n"
+               "for f in (main, main_only_reference_buses, main_xwards):\n    try:\n        f()\n    except SystemExit as e:\n        if e.code:\n            raise\n"))
 
 
 def classify(ob, model):
